@@ -144,6 +144,13 @@ func run(prop, tier, repo, verif, tags string, seed int, rule rules.Rule, patch,
 	if variant {
 		// variant / witness run: print a machine-readable summary, write nothing
 		out := res.Summarise(findings)
+		if os.Getenv("F2G_DEBUG") != "" {
+			for _, o := range res.Obligations {
+				if o.Verdict == report.Violation || o.Verdict == report.Undecided {
+					fmt.Printf("  %s %s @ %s: %s\n", o.Verdict, o.Key, o.Pos, o.Detail)
+				}
+			}
+		}
 		fmt.Printf("WITNESS-RESULT status=ok violations=%d known=%d obligations=%d rules=%s keys=%s\n", len(out.Violations), len(out.Known), len(res.Obligations), strings.Join(out.Rules, ","), strings.Join(out.Keys, ";;"))
 		if len(out.Violations) > 0 {
 			return 1
